@@ -59,3 +59,4 @@ open Cst.C03
 #print axioms Cst.Gen.tk_siblings
 #print axioms Cst.Gen.tk_green
 #print axioms Cst.Gen.tk_kinds
+#print axioms Cst.Gen.nd_accessors
